@@ -39,7 +39,7 @@ class C13(StoreProp):
     quick_runs = 3000
     thorough_runs = 100000
     w = dict(WEIGHTS)
-    w.update({'set_attr': 8, 'leak': 3, 'set_option': 5, 'remove': 5, 'add_demand': 4, 'add_control': 6, 'add_source': 3, 'restart': 3})
+    w.update({'set_attr': 8, 'leak': 3, 'set_option': 5, 'remove': 5, 'add_demand': 4, 'add_control': 6, 'add_source': 3, 'restart': 3, 'quality': 3})
     profile = {'weights': w, 'n_ops': (8, 40), 'tank_attrs': ['level', 'level', 'head'], 'p_nested_condition': 0.04,
                'restarts': [('dict', 4), ('json', 3), ('pickle', 1), ('deepcopy', 1), ('inp', 1)]}
     rule = ('one case = one seeded edit history of 8-40 operations (all element kinds, several demands per junction, tags, vertices on every link type, '
